@@ -170,6 +170,14 @@ def work(idx, _chunk, seed, n):
             neg.append(("compound_target", "5 K -> 2 %s" % sp))
             neg.append(("compound_target", "5 K -> %s / s" % sp))
             neg.append(("compound_target", "5 K -> %s %s" % (sp, rng.choice(SPELLINGS[rng.choice(SCALES)]))))
+            # a scale hidden deeper in the target: behind `name =`, in an exponent, in an `of` operand, after a comment / newline
+            neg.append(("compound_target", "300 K -> %s = 1 %s" % (rng.choice(["kelvin", "x", "potato"]), sp)))
+            neg.append(("compound_target", "300 K -> K^((1 %s)/(1 %s))" % (sp, sp)))
+            neg.append(("compound_target", "1 kg/m^3 -> density of (water ((1 %s)/(274.15 K)))" % sp))
+            neg.append(("compound_target", "5 K -> %s /**/ m" % sp))
+            neg.append(("compound_target", "5 K -> %s /* c */ %s" % (sp, rng.choice(SPELLINGS[rng.choice(SCALES)]))))
+            neg.append(("compound_target", "5 K -> %s\nm" % sp))
+            neg.append(("compound_target", "5 K -> K, %s" % sp))
             neg.append(("nonconformable_source", "3 m -> %s" % sp))
     for why, q in neg[idx::nproc()]:
         r = ask(part, probe, q)
